@@ -22,7 +22,7 @@ def plan(tier, seed):
 META = {
     'level': 'model_checking',
     'engines': 'E1: cbmc 6.11 bit-precise (MiniSat / kissat)',
-    'bounds': {'buffer': 'lwork 0..64 bytes (thorough: 256), any base alignment 0..7', 'requests': '0..size+8 bytes', 'WorkInit': 'n 1..3, w 1..2, maxsuper/rowblk 1..2',
+    'bounds': {'buffer': 'lwork 0..64 bytes (thorough: 256), any base alignment 0..7', 'requests': '0..size+8 bytes', 'WorkInit': 'n 1..3, w 1..2, maxsuper/rowblk 1..2', 'work arrays cleared': 'WorkInit + pxgstrf_SetIWork + pdgstrf_SetRWork on a fresh stack over a buffer of <=136 bytes with ARBITRARY contents, any base alignment, n 1..2, w=1, maxsuper/rowblk 1..2: dense[], tempv[] all zero, repfnz[] all EMPTY (requests whose integer array would be misaligned for int are left out)',
                'state': 'arbitrary (top1, top2, used) satisfying the representation invariant, with one live block of another owner at each end',
     'driver': 'real pdgssvx + sp_colorder + pdgstrf_thread_init + ParallelInit + PresetMap + MemInit, n=2,3, 8 patterns, NC/NR, symmetric mode on/off, lwork 1..80n^2 bytes at any alignment (the whole range from nothing fits to everything fits), or the system allocator refusing every MemInit request from the k-th on (k symbolic)'},
     'outside': ['system-malloc mode of the per-thread work arrays', 'the memory-expansion branch of p?gstrf_expand (documented as not implemented in SuperLU_MT)',
